@@ -453,13 +453,8 @@ func runC07(c *Ctx) {
 	if rt := p.Func("rtpconn", "", "requestedTracks"); rt != nil {
 		ff := eng.Analyze(rt)
 		info := rt.Pkg.TypesInfo
-		flag := func(name string) *Term {
-			if o := rt.localVar(name); o != nil {
-				return TVar(o)
-			}
-			return nil
-		}
-		audio, video, low := flag("audio"), flag("video"), flag("videoLow")
+		flags, okFlags := requestFlags(p, rt)
+		audio, video, low := flags["audio"], flags["video"], flags["video-low"]
 		seen := map[string]bool{}
 		// the track list: the parameter of requestedTracks that is a slice of up tracks
 		var tracksObj types.Object
@@ -506,65 +501,85 @@ func runC07(c *Ctx) {
 				sel := selection{loop: rs, inLit: lit}
 				okShape := true
 				remembered := false
-				for _, st := range rs.Body.List {
-					switch x := st.(type) {
-					case *ast.IfStmt:
-						if x.Init != nil || x.Else != nil || len(x.Body.List) != 1 {
+				// v.Kind() <op> K
+				kindTest := func(e ast.Expr, op token.Token) ast.Expr {
+					be, isB := unparen(e).(*ast.BinaryExpr)
+					if !isB || be.Op != op {
+						return nil
+					}
+					call, isC := unparen(be.X).(*ast.CallExpr)
+					if !isC || len(call.Args) != 0 {
+						return nil
+					}
+					se, isS := unparen(call.Fun).(*ast.SelectorExpr)
+					if !isS || se.Sel.Name != "Kind" {
+						return nil
+					}
+					if id, isId := unparen(se.X).(*ast.Ident); !isId || info.Uses[id] != vobj {
+						return nil
+					}
+					return be.Y
+				}
+				var visit func(list []ast.Stmt, top bool)
+				visit = func(list []ast.Stmt, top bool) {
+					for i, st := range list {
+						switch x := st.(type) {
+						case *ast.IfStmt:
+							if x.Init != nil || x.Else != nil {
+								okShape = false
+								continue
+							}
+							// positive form: if v.Kind() == K { track = v; count++; if C { break } }
+							// as the last statement of the loop body
+							if k := kindTest(x.Cond, token.EQL); k != nil && top && i == len(list)-1 && !remembered && sel.kind == nil {
+								sel.kind = k
+								visit(x.Body.List, false)
+								continue
+							}
+							if len(x.Body.List) != 1 {
+								okShape = false
+								continue
+							}
+							br, isBr := x.Body.List[0].(*ast.BranchStmt)
+							if !isBr || br.Label != nil {
+								okShape = false
+								continue
+							}
+							switch br.Tok {
+							case token.CONTINUE:
+								// v.Kind() != K, before the track is remembered
+								k := kindTest(x.Cond, token.NEQ)
+								if k == nil || remembered || sel.kind != nil || !top {
+									okShape = false
+									continue
+								}
+								sel.kind = k
+							case token.BREAK:
+								if !remembered || sel.stop != nil {
+									okShape = false
+									continue
+								}
+								sel.stop = x.Cond
+							default:
+								okShape = false
+							}
+						case *ast.AssignStmt:
+							// track = v
+							if len(x.Lhs) == 1 && len(x.Rhs) == 1 {
+								if id, isId := unparen(x.Rhs[0]).(*ast.Ident); isId && info.Uses[id] == vobj && sel.kind != nil {
+									remembered = true
+									continue
+								}
+							}
 							okShape = false
-							continue
-						}
-						br, isBr := x.Body.List[0].(*ast.BranchStmt)
-						if !isBr || br.Label != nil {
-							okShape = false
-							continue
-						}
-						switch br.Tok {
-						case token.CONTINUE:
-							// v.Kind() != K, before the track is remembered
-							be, isB := unparen(x.Cond).(*ast.BinaryExpr)
-							if !isB || be.Op != token.NEQ || remembered || sel.kind != nil {
-								okShape = false
-								continue
-							}
-							call, isC := unparen(be.X).(*ast.CallExpr)
-							if !isC || len(call.Args) != 0 {
-								okShape = false
-								continue
-							}
-							se, isS := unparen(call.Fun).(*ast.SelectorExpr)
-							if !isS || se.Sel.Name != "Kind" {
-								okShape = false
-								continue
-							}
-							if id, isId := unparen(se.X).(*ast.Ident); !isId || info.Uses[id] != vobj {
-								okShape = false
-								continue
-							}
-							sel.kind = be.Y
-						case token.BREAK:
-							if !remembered || sel.stop != nil {
-								okShape = false
-								continue
-							}
-							sel.stop = x.Cond
+						case *ast.IncDecStmt:
+							// count++
 						default:
 							okShape = false
 						}
-					case *ast.AssignStmt:
-						// track = v
-						if len(x.Lhs) == 1 && len(x.Rhs) == 1 {
-							if id, isId := unparen(x.Rhs[0]).(*ast.Ident); isId && info.Uses[id] == vobj && sel.kind != nil {
-								remembered = true
-								continue
-							}
-						}
-						okShape = false
-					case *ast.IncDecStmt:
-						// count++
-					default:
-						okShape = false
 					}
 				}
+				visit(rs.Body.List, true)
 				if okShape && remembered && sel.kind != nil {
 					sels = append(sels, sel)
 				} else {
@@ -605,16 +620,16 @@ func runC07(c *Ctx) {
 				}
 			}
 			st, _ := ff.At(at)
-			if st == nil || audio == nil || video == nil || low == nil || !known {
+			if st == nil || len(audio) == 0 || len(video) == 0 || len(low) == 0 || !known {
 				seen["other:"+kind+" at "+p.PosStr(at.Pos())] = true
 				return
 			}
 			switch {
-			case strings.HasSuffix(kind, "RTPCodecTypeAudio") && first && st.HasFact(mkFact(true, "true", audio, nil)):
+			case strings.HasSuffix(kind, "RTPCodecTypeAudio") && first && flagFact(st, audio, true):
 				seen["audio"] = true
-			case strings.HasSuffix(kind, "RTPCodecTypeVideo") && first && st.HasFact(mkFact(true, "true", video, nil)):
+			case strings.HasSuffix(kind, "RTPCodecTypeVideo") && first && flagFact(st, video, true):
 				seen["video"] = true
-			case strings.HasSuffix(kind, "RTPCodecTypeVideo") && !first && st.HasFact(mkFact(false, "true", video, nil)) && st.HasFact(mkFact(true, "true", low, nil)):
+			case strings.HasSuffix(kind, "RTPCodecTypeVideo") && !first && flagFact(st, video, false) && flagFact(st, low, true):
 				seen["video-low"] = true
 			default:
 				seen[fmt.Sprintf("other:%s,first=%v at %s", kind, first, p.PosStr(at.Pos()))] = true
@@ -677,99 +692,6 @@ func runC07(c *Ctx) {
 			"first audio track under audio; first video track under video; last video track under !video && videoLow", fmt.Sprintf("the selection table changed: %v", seen))
 		// the flags are set by the matching strings: a flag (or a local it is copied
 		// from) becomes true only where the request element compared equal to its string
-		okFlags := true
-		var reqObj types.Object
-		for _, po := range rt.params(info) {
-			if po == nil {
-				continue
-			}
-			if sl, ok := po.Type().Underlying().(*types.Slice); ok {
-				if bt, ok := sl.Elem().Underlying().(*types.Basic); ok && bt.Kind() == types.String {
-					reqObj = po
-				}
-			}
-		}
-		elemVars := map[types.Object]bool{} // value variables of loops over the request
-		ast.Inspect(rt.Body(), func(n ast.Node) bool {
-			if rs, ok := n.(*ast.RangeStmt); ok {
-				if id, ok := unparen(rs.X).(*ast.Ident); ok && reqObj != nil && info.Uses[id] == reqObj {
-					if v, ok := rs.Value.(*ast.Ident); ok {
-						elemVars[info.ObjectOf(v)] = true
-					}
-				}
-			}
-			return true
-		})
-		for name, want := range map[string]string{"audio": "audio", "video": "video", "videoLow": "video-low"} {
-			o := rt.localVar(name)
-			if o == nil {
-				okFlags = false
-				continue
-			}
-			work, done := []types.Object{o}, map[types.Object]bool{o: true}
-			found := false
-			for len(work) > 0 {
-				v := work[0]
-				work = work[1:]
-				ast.Inspect(rt.Body(), func(n ast.Node) bool {
-					as, ok := n.(*ast.AssignStmt)
-					if !ok {
-						return true
-					}
-					for i, l := range as.Lhs {
-						id, ok := l.(*ast.Ident)
-						if !ok || info.ObjectOf(id) != v {
-							continue
-						}
-						if len(as.Rhs) != len(as.Lhs) {
-							okFlags = false // result of a call: not understood
-							continue
-						}
-						rhs := unparen(as.Rhs[i])
-						if tv := info.Types[rhs]; tv.Value != nil {
-							if tv.Value.String() == "false" {
-								continue
-							}
-							// true: only under element == want
-							st, _ := ff.At(as)
-							under := false
-							if st != nil {
-								for _, f := range st.Facts() {
-									if f.Op != "eq" || !f.Pos || f.B == nil {
-										continue
-									}
-									for _, pr := range [][2]*Term{{f.A, f.B}, {f.B, f.A}} {
-										if pr[0].K == 'v' && elemVars[pr[0].Obj] && pr[1].K == 'c' && pr[1].Name == fmt.Sprintf("%q", want) {
-											under = true
-										}
-									}
-								}
-							}
-							if under {
-								found = true
-							} else {
-								okFlags = false
-							}
-							continue
-						}
-						if rid, ok := rhs.(*ast.Ident); ok {
-							if u, isVar := info.Uses[rid].(*types.Var); isVar {
-								if !done[u] {
-									done[u] = true
-									work = append(work, u)
-								}
-								continue
-							}
-						}
-						okFlags = false
-					}
-					return true
-				})
-			}
-			if !found {
-				okFlags = false
-			}
-		}
 		c.Check(okFlags, "R7.5", "request strings map to their kinds", rt.Pos(), "\"audio\", \"video\", \"video-low\" set exactly their flag", "a request string selects another kind")
 		// limitSid only on the video-low path with fewer than two video tracks
 		okLimit, nset := limitRequestOK(p, rt)
@@ -1019,4 +941,193 @@ func runC07Pairing(c *Ctx) {
 		okOrder := mark != nil && push != nil && ff.DominatedByNode(push, mark)
 		c.Check(okOrder, "R7.6", "delUpConn marks the stream closed before announcing the close", du.Pos(), "conn.closed = true dominates the PushConn(nil) fan-out", "the close is announced before the stream refuses new subscribers: a push in flight can attach after the close was sent")
 	}
+}
+
+// requestFlags identifies the flags of requestedTracks by role: for each request
+// string, the boolean locals that become true where the element of the request
+// list compared equal to that string, and the locals copied from them.  ok is
+// false when a flag is also set somewhere else, copied from something that is
+// not understood, shared between two strings, or missing.
+func requestFlags(p *Program, rt *FuncSrc) (flags map[string]map[types.Object]bool, ok bool) {
+	info := rt.Pkg.TypesInfo
+	ff := p.Facts().Analyze(rt)
+	var reqObj types.Object
+	for _, po := range rt.params(info) {
+		if po == nil {
+			continue
+		}
+		if sl, isSl := po.Type().Underlying().(*types.Slice); isSl {
+			if bt, isB := sl.Elem().Underlying().(*types.Basic); isB && bt.Kind() == types.String {
+				reqObj = po
+			}
+		}
+	}
+	elemVars := map[types.Object]bool{} // value variables of loops over the request
+	ast.Inspect(rt.Body(), func(n ast.Node) bool {
+		if rs, isR := n.(*ast.RangeStmt); isR {
+			if id, isId := unparen(rs.X).(*ast.Ident); isId && reqObj != nil && info.Uses[id] == reqObj {
+				if v, isV := rs.Value.(*ast.Ident); isV {
+					elemVars[info.ObjectOf(v)] = true
+				}
+			}
+		}
+		return true
+	})
+	wants := []string{"audio", "video", "video-low"}
+	under := func(at ast.Node) string {
+		st, _ := ff.At(at)
+		if st == nil {
+			return ""
+		}
+		for _, f := range st.Facts() {
+			if f.Op != "eq" || !f.Pos || f.B == nil {
+				continue
+			}
+			for _, pr := range [][2]*Term{{f.A, f.B}, {f.B, f.A}} {
+				if pr[0].K == 'v' && elemVars[pr[0].Obj] && pr[1].K == 'c' {
+					for _, w := range wants {
+						if pr[1].Name == fmt.Sprintf("%q", w) {
+							return w
+						}
+					}
+				}
+			}
+		}
+		return ""
+	}
+	type asg struct {
+		lhs types.Object
+		rhs ast.Expr // nil: a value that is not understood (result of a call, ...)
+		at  ast.Node
+	}
+	var asgs []asg
+	boolVar := func(e ast.Expr) types.Object {
+		id, isId := unparen(e).(*ast.Ident)
+		if !isId {
+			return nil
+		}
+		v, isV := info.ObjectOf(id).(*types.Var)
+		if !isV || v.IsField() {
+			return nil
+		}
+		if bt, isB := v.Type().Underlying().(*types.Basic); !isB || bt.Kind() != types.Bool {
+			return nil
+		}
+		return v
+	}
+	ast.Inspect(rt.Body(), func(n ast.Node) bool {
+		switch x := n.(type) {
+		case *ast.AssignStmt:
+			for i, l := range x.Lhs {
+				v := boolVar(l)
+				if v == nil {
+					continue
+				}
+				if len(x.Rhs) != len(x.Lhs) {
+					asgs = append(asgs, asg{v, nil, x})
+				} else {
+					asgs = append(asgs, asg{v, unparen(x.Rhs[i]), x})
+				}
+			}
+		case *ast.ValueSpec:
+			for i, nm := range x.Names {
+				v := boolVar(nm)
+				if v == nil || len(x.Values) == 0 {
+					continue
+				}
+				if len(x.Values) != len(x.Names) {
+					asgs = append(asgs, asg{v, nil, x})
+				} else {
+					asgs = append(asgs, asg{v, unparen(x.Values[i]), x})
+				}
+			}
+		case *ast.UnaryExpr:
+			if x.Op == token.AND {
+				if v := boolVar(x.X); v != nil {
+					asgs = append(asgs, asg{v, nil, x}) // address taken: written elsewhere
+				}
+			}
+		}
+		return true
+	})
+	isConst := func(e ast.Expr, val string) bool {
+		if e == nil {
+			return false
+		}
+		tv := info.Types[e]
+		return tv.Value != nil && tv.Value.String() == val
+	}
+	flags = map[string]map[types.Object]bool{}
+	for _, w := range wants {
+		flags[w] = map[types.Object]bool{}
+	}
+	for _, a := range asgs {
+		if isConst(a.rhs, "true") {
+			if w := under(a.at); w != "" {
+				flags[w][a.lhs] = true
+			}
+		}
+	}
+	// copies
+	for changed := true; changed; {
+		changed = false
+		for _, a := range asgs {
+			src := types.Object(nil)
+			if a.rhs != nil {
+				src = boolVar(a.rhs)
+			}
+			if src == nil {
+				continue
+			}
+			for _, w := range wants {
+				if flags[w][src] && !flags[w][a.lhs] {
+					flags[w][a.lhs] = true
+					changed = true
+				}
+			}
+		}
+	}
+	ok = true
+	owner := map[types.Object]string{}
+	for _, w := range wants {
+		if len(flags[w]) == 0 {
+			ok = false
+		}
+		for v := range flags[w] {
+			if o, dup := owner[v]; dup && o != w {
+				ok = false
+			}
+			owner[v] = w
+		}
+	}
+	for _, a := range asgs {
+		w, isFlag := owner[a.lhs]
+		if !isFlag {
+			continue
+		}
+		switch {
+		case isConst(a.rhs, "false"):
+		case isConst(a.rhs, "true"):
+			if under(a.at) != w {
+				ok = false
+			}
+		case a.rhs != nil && boolVar(a.rhs) != nil && flags[w][boolVar(a.rhs)]:
+		default:
+			ok = false
+		}
+	}
+	return flags, ok
+}
+
+// flagFact: some local of the flag set is known to be true (false).
+func flagFact(st *State, set map[types.Object]bool, val bool) bool {
+	if st == nil {
+		return false
+	}
+	for v := range set {
+		if st.HasFact(mkFact(val, "true", TVar(v), nil)) {
+			return true
+		}
+	}
+	return false
 }
